@@ -478,3 +478,11 @@ pub fn inflate(cenc: u8, data: &[u8]) -> Result<Vec<u8>, String> {
     }
     Ok(out)
 }
+
+/// `Sender::add_object` with the per-scheme acceptance tally (util::tally_add)
+pub fn add_tallied(s: &mut Sender, prio: u32, d: Box<flute::sender::ObjectDesc>, sess_oti: &OtiSpec) -> Result<u128, flute::error::FluteError> {
+    let id = d.config.oti.as_ref().map(|o| o.fec_encoding_id as u8).unwrap_or_else(|| sess_oti.oti().map(|o| o.fec_encoding_id as u8).unwrap_or(255));
+    let r = s.add_object(prio, d);
+    crate::util::tally_add(id, r.is_ok());
+    r
+}
